@@ -137,6 +137,7 @@ func c10runHist(j c09job) (res c09res) {
 		}
 	}
 	nchan := 0
+	gen := uint64(0) // the interpreter's run id: stop() is called once per cancelled evaluation
 	for _, ev := range j.Hist {
 		switch ev.Op {
 		case "define":
@@ -169,7 +170,7 @@ func c10runHist(j c09job) (res c09res) {
 				return
 			}
 		case "cancel":
-			what, err := c10cancel(ip, ev, &nchan, before)
+			what, err := c10cancel(ip, ev, &nchan, &gen, before)
 			if err != "" {
 				res.Err = err
 				res.Runaway = strings.Contains(err, "still alive") // the worker is replaced
@@ -188,7 +189,7 @@ func c10runHist(j c09job) (res c09res) {
 
 // c10cancel performs one cancelled evaluation and reports what happened (for an expired context:
 // whether the evaluation ran all the same).
-func c10cancel(ip *interp.Interpreter, ev c10ev, nchan *int, before map[uint64]bool) (what, errs string) {
+func c10cancel(ip *interp.Interpreter, ev c10ev, nchan *int, gen *uint64, before map[uint64]bool) (what, errs string) {
 	what = ev.What
 	k := ev.K
 	var src string
@@ -260,14 +261,25 @@ func c10cancel(ip *interp.Interpreter, ev c10ev, nchan *int, before map[uint64]b
 			// the evaluation won the race in EvalWithContext's select: nothing was cancelled
 			what = "expired-completed"
 		} else {
+			// stop() has been called. The evaluation ran all the same if its first operation was reached
+			// in a frame of the NEW run id (stop() came before Execute refreshed the global frame); if it
+			// was reached with the old one, stop() came while that operation was in flight: an ordinary
+			// cancellation, after which the global frame is stale as when nothing ran.
+			what = "expired-not"
 			if c09parkedOrGone(r, before, c09ExitBound) {
-				what = "expired-ran"
-			} else {
-				what = "expired-not"
+				r.mu.Lock()
+				fid := r.parkFID
+				r.mu.Unlock()
+				if fid == *gen+1 {
+					what = "expired-ran"
+				}
 			}
 		}
 	} else if !errors.Is(err, context.Canceled) {
 		return what, fmt.Sprintf("cancelled evaluation returned %v", err)
+	}
+	if err != nil {
+		*gen++
 	}
 	r.mu.Lock()
 	r.returned = true
